@@ -267,7 +267,7 @@ def arr_getitem(ex, obj, idx):
             t = z_int(int_of(i, "array index"))
             if not ex.st.branch(z3.And(t >= -n, t < n)):
                 ex.throw("IndexError", "index out of bounds")
-            maps.append(("int", z3.If(t >= 0, t, t + n)))
+            maps.append(("int", z3.simplify(z3.If(t >= 0, t, t + n))))
     if not new_shape:
         return c.elem(tuple(m[1] for m in maps))
 
@@ -414,6 +414,19 @@ def arr_setitem(ex, obj, idx, val):
         nv = cast_elem(ex, cell(ex, val).elem(tuple(vix)) if ex.is_arr(val) else val, c.dtype)
         return ite_val(cond, nv, old(ix))
     write_elem(ex, obj, elem)
+
+
+def arr_mask_inplace(ex, op, obj, mask, val):
+    """a[mask] <op>= v  for a boolean mask of a's shape: elementwise  a[i] = mask[i] ? a[i] <op> v[i] : a[i]."""
+    c, m = cell(ex, obj), cell(ex, mask)
+    if not ex.st.branch(shape_eq(c.shape, m.shape)):
+        ex.throw("IndexError", "boolean index did not match indexed array")
+    if ex.is_arr(val):
+        raise Unsupported("mask in-place with an array operand")
+    old = c.elem
+    cfg = ex.cfg
+    write_elem(ex, obj, lambda ix, old=old, m=m: ite_val(z_bool(m.elem(ix).v), cast_elem(ex, arith(cfg, op, old(ix), val), c.dtype), old(ix)))
+    return None
 
 
 def arr_iterate(ex, v):
@@ -646,6 +659,25 @@ def ufunc1(ex, name, v):
 
 for _n in ("abs", "trunc", "floor", "ceil", "square", "exp", "sqrt", "log10", "isnan"):
     NP["numpy." + _n] = (lambda n: lambda ex, args, kwargs, fr: ufunc1(ex, n, args[0]))(_n)
+
+
+def _isfinite(ex, args, kwargs, fr):
+    v = args[0]
+
+    def f(x):
+        if isinstance(x, VFloat) and not is_conc(x.v) and is_fp(x.v):
+            return VBool(z3.Not(z3.Or(z3.fpIsNaN(x.v), z3.fpIsInf(x.v))))
+        if isinstance(x, VFloat) and is_conc(x.v):
+            import math
+            return VBool(math.isfinite(x.v))
+        return VBool(True)      # real mode: every value is finite (stated: machine arithmetic treated as mathematical)
+    if ex.is_arr(v):
+        c = cell(ex, v)
+        return new_array(ex, c.shape, VDtype("bool"), lambda ix: f(c.elem(ix)))
+    return f(v)
+
+
+NP["numpy.isfinite"] = _isfinite
 NP["numpy.absolute"] = NP["numpy.abs"]
 NP["numpy.fabs"] = NP["numpy.abs"]
 
@@ -715,7 +747,7 @@ def reduce_minmax(ex, v, is_min):
     for i, s in zip(wit, c.shape):
         ex.st.assume(z3.And(i >= 0, i < z_int(s)))
     ex.st.assume(num_compare("eq", r, c.elem(wit)))
-    ex.st.ghost.setdefault("reductions", []).append((r, c, "min" if is_min else "max"))
+    ex.st.ghost.setdefault("reductions", []).append({"result": r, "elem": c.elem, "shape": c.shape, "kind": "min" if is_min else "max", "dtype": c.dtype})
     return r
 
 
@@ -743,10 +775,18 @@ def _npmax(ex, args, kwargs, fr):
     return ex.lib.minmax(ex, [v], {}, fr, False)
 
 
-def reduce_sum(ex, v):
+def reduce_sum(ex, v, what="sum"):
+    """Abstract reduction: a fresh scalar; the summand (element function at the time of the call) is
+    recorded in ghost 'reductions' so that contracts can state what was summed."""
     c = cell(ex, v)
-    r = VFloat(ex.st.fresh_real("sum")) if elem_kind(c.dtype) == "float" else VInt(ex.st.fresh_int("sum"))
-    ex.st.ghost.setdefault("reductions", []).append((r, c, "sum"))
+    k = elem_kind(c.dtype)
+    r = VFloat(ex.st.fresh_real(what)) if k == "float" else VInt(ex.st.fresh_int(what))
+    ex.st.ghost.setdefault("reductions", []).append({"result": r, "elem": c.elem, "shape": c.shape, "kind": what, "dtype": c.dtype})
+    if k == "bool":
+        n = 1
+        for s_ in c.shape:
+            n = n * z_int(s_)
+        ex.st.assume(z3.And(r.v >= 0, r.v <= n))
     return r
 
 
@@ -856,3 +896,50 @@ def _flatten(ex, args, kwargs, fr):
         n1z = z_int(n1)
         return new_array(ex, (n0 * n1,), c.dtype, lambda ix: c.elem((z_int(ix[0]) / n1z, z_int(ix[0]) % n1z)))
     raise Unsupported("flatten of >2-D array")
+
+
+@npfn("numpy.arange")
+def _arange(ex, args, kwargs, fr):
+    if len(args) == 1 and isinstance(args[0], (VInt,)) and "dtype" not in kwargs:
+        n = args[0].v
+        if is_conc(n):
+            items = [VInt(i) for i in range(n)]
+            return new_array(ex, (n,), VDtype("int64"), lambda ix, items=items: _select(items, ix[0]))
+        return new_array(ex, (z3.If(n > 0, n, 0),), VDtype("int64"), lambda ix: VInt(z_int(ix[0])))
+    raise Unsupported("np.arange with these arguments")
+
+
+def _select(items, i):
+    if not is_conc(i):
+        i = z3.simplify(i)
+    if is_conc(i) or z3.is_int_value(z_int(i)):
+        return items[i if is_conc(i) else z_int(i).as_long()]
+    out = items[-1]
+    for j in range(len(items) - 2, -1, -1):
+        out = ite_val(z_int(i) == j, items[j], out)
+    return out
+
+
+normal_draw = z3.Function("normal_draw", z3.IntSort(), z3.IntSort(), z3.IntSort(), z3.RealSort())
+
+
+@npfn("numpy.random.normal")
+def _normal(ex, args, kwargs, fr):
+    """Library contract: a draw of N(loc, scale); with scale == 0 every sample equals loc exactly.
+    Advances the ghost RNG state."""
+    loc = kwargs.get("loc", args[0] if args else VFloat(0.0))
+    scale = kwargs.get("scale", args[1] if len(args) > 1 else VFloat(1.0))
+    size = kwargs.get("size", args[2] if len(args) > 2 else None)
+    ex.st.ghost["RNG_draws"] = ex.st.ghost.get("RNG_draws", 0) + 1
+    did = ex.st.fresh_int("draw")
+    if size is None or isinstance(size, VNone):
+        raise Unsupported("scalar normal draw")
+    shape = shape_arg(ex, size, fr)
+    if len(shape) != 2:
+        raise Unsupported("normal draw of this rank")
+    zero = is_zero(scale)
+
+    def elem(ix):
+        noise = normal_draw(did, z_int(ix[0]), z_int(ix[1]))
+        return VFloat(z3.If(zero if not isinstance(zero, bool) else z3.BoolVal(zero), to_real(loc), to_real(loc) + to_real(scale) * noise))
+    return new_array(ex, shape, VDtype("float64"), elem)
